@@ -50,6 +50,23 @@ CHECKS["C13"] = dict(
     engine="tlc+replay+trace-validation",
 )
 
+CHECKS["C02"] = dict(
+    built=True,
+    category="model_checking",
+    technique="TLA+ spec J2O_GraphRewrite (free-term-algebra tensors) checked by TLC over pattern neighbourhoods; every initial graph replayed through the real passes with ORT before/after; real export pipelines validated as traces by J2O_OptTrace",
+    text=(
+        "J2O_GraphRewrite models the optimizer as guarded rewrite rules over graphs whose values are tensors in the free term algebra "
+        "(exact ONNX transpose/reshape/broadcast/reduce data movement), so OutputsPreserved means equality for ALL inputs; TLC checks it after every "
+        "prefix of rewrites over ~1.9k (quick) / ~20k (thorough) neighbourhood graphs (side operand kinds, observed or multiply-consumed intermediates, "
+        "non-inverse perms, repeated/distinct sizes, symbolic dims, cast pairs, Mul*Sigmoid). The SAME graphs are built as real ONNX models with full "
+        "metadata and pushed through the real _OPTIMIZER_PASSES one by one, ORT outputs compared bit-exactly after each changing pass. "
+        "Real corpus exports are snapshotted before the pipeline and after every changing pass and compared in ORT; the traces are validated by TLC."
+    ),
+    note="Trusted: ORT with optimisations disabled as ONNX semantics, TLC. Rule guards in the spec are the specification (sound by TLC); the implementation's guards are judged only by the replay.",
+    design_ref="DESIGN.md §2 J2O_GraphRewrite, §3 C02",
+    engine="tlc+replay+trace-validation",
+)
+
 TITLES = {}
 for line in (VERIF / "properties.jsonl").read_text().splitlines():
     if line.strip():
